@@ -732,6 +732,14 @@ class CSSMatch(_DocumentNav):
                 # Get attribute parts
                 namespace, name = self.split_namespace(el, k)
 
+                # `*|attr` matches the local name in any namespace (or none)
+                if prefix == '*':
+                    local = k if namespace is None or name is None else name
+                    if (util.lower(attr) != util.lower(local)) if not self.is_xml else (attr != local):
+                        continue
+                    value = v
+                    break
+
                 # Can't match a prefix attribute as we haven't specified one to match
                 # Try to match it normally as a whole `p:a` as selector may be trying `p\:a`.
                 if ns is None:
